@@ -218,6 +218,7 @@ def _decorate_user_alt(rng, alt, user, fallible, pat):
         k = rng.randint(1, n)
         idx = sorted(rng.sample(range(n), k))
         names = list(BINDNAMES)
+        rng.shuffle(names)
         for j, i in enumerate(idx):
             it = alt.items[i]
             if it.sym.k == "grp" and len(selected(it.sym.items)) >= 2 and rng.random() < pat:
@@ -228,10 +229,18 @@ def _decorate_user_alt(rng, alt, user, fallible, pat):
         return
     if r < 0.75:
         alt.action = "angle"
-        if rng.random() < 0.5:
+        k2 = rng.random()
+        if k2 < 0.4:
             k = rng.randint(1, n)
             for i in rng.sample(range(n), k):
                 alt.items[i].bind = ("sel",)
+        elif k2 < 0.7:
+            # `<>` with NAMED symbols expands to the names in positional order
+            k = rng.randint(1, n)
+            names = list(BINDNAMES)
+            rng.shuffle(names)
+            for i in sorted(rng.sample(range(n), k)):
+                alt.items[i].bind = ("name", names.pop(0), rng.random() < 0.15)
         return
     if r < 0.9:
         k = rng.randint(2, n) if n >= 2 else 0
@@ -381,6 +390,10 @@ def inputs_for(rng, cfg, start, alphabet, exhaustive_budget=400, nrandom=40, nmu
             break
         s = rng.choice(sents)
         add(mutate(rng, s, alphabet, nmut=rng.choice([1, 1, 1, 2, 3])))
+    # every proper prefix of some sentences: end of input in every state along the way
+    for s in sents[:max(4, nrandom // 4)]:
+        for k in range(len(s)):
+            add(s[:k])
     for i in range(nrandom // 2):
         add([rng.choice(alphabet) for _ in range(rng.randint(0, 12))])
     return out, L
@@ -493,6 +506,42 @@ def gen_loc(rng, **gk):
                     b = ("name", "e", False)
                 alt.items.insert(pos, Item(N(name), b))
     add_locations(rng, g, p=0.7)
+    if rng.random() < 0.5:
+        # user #[inline] nonterminals: their (multi-symbol) spans feed @L/@R of the host
+        inl = set(add_user_inline(rng, g))
+        # observe the span of each inlined nonterminal: @L right before / @R right after it
+        for nt in g.nts:
+            if nt.ty != "V":
+                continue
+            for alt in nt.alts:
+                if alt.action is None:
+                    continue
+                i = 0
+                while i < len(alt.items):
+                    it = alt.items[i]
+                    if it.sym.k == "n" and it.sym.name in inl and rng.random() < 0.7:
+                        used = {x.bind[1] for x in alt.items if x.bind and x.bind[0] == "name"}
+                        fresh = [n for n in ["la", "lb", "lc", "ld", "le", "lf"] if n not in used]
+                        any_sel = any(x.bind and x.bind[0] == "sel" for x in alt.items)
+
+                        def mk(kind):
+                            if alt.action == "named":
+                                return Item(Sym(kind), ("name", fresh.pop(0), False)) if fresh else None
+                            if alt.action == "angle_multi" and len(alt.items) >= 7:
+                                return None
+                            return Item(Sym(kind), ("sel",) if any_sel else None)
+                        nxt = alt.items[i + 1].sym.k if i + 1 < len(alt.items) else None
+                        prv = alt.items[i - 1].sym.k if i > 0 else None
+                        if nxt not in ("L", "R") and rng.random() < 0.7:
+                            x = mk("R")
+                            if x:
+                                alt.items.insert(i + 1, x)
+                        if prv not in ("L", "R") and rng.random() < 0.5:
+                            x = mk("L")
+                            if x:
+                                alt.items.insert(i, x)
+                                i += 1
+                    i += 1
     _assign_pids(g)
     return g
 
